@@ -377,4 +377,39 @@ def register(_reg, _mt, STD):  # noqa: ANN001
     _extend('C17', [round5.rule_none_argument_is_nonetype])
     for pid_ in ('C04', 'C13', 'C18'):
         _extend(pid_, [round5.rule_numpy_free_twin])
+    # round 9
+    for pid_ in ('C10', 'C08'):
+        _extend(pid_, [round5.rule_no_mutable_defaults])
+    _extend('C08', [round5.rule_text_not_from_sets])
+    _extend('C10', [round5.rule_locks_released_on_all_paths])
+    for pid_ in ('C15', 'C14'):
+        _extend(pid_, [round5.rule_in_names_is_a_tuple])
+    _extend('C18', [round5.rule_no_handlers_means_none, round5.rule_enum_writer_converts_value])
+    _extend('C05', [round5.rule_enum_writer_converts_value])
+    _extend('C19', [round5.rule_lazy_documents_read_inside_with])
+    for pid_ in ('C17', 'C01', 'C14'):
+        _extend(pid_, [round5.rule_default_lookup_through_mro])
+    for pid_ in ('C17', 'C02'):
+        _extend(pid_, [round5.rule_spec_substitution_unconditional])
+    for pid_ in ('C05', 'C14', 'C06'):
+        _extend(pid_, [round5.rule_top_level_scalar_bypass])
+    _extend('C11', [round5.rule_value_or_list_records_member])
+    _extend('C02', [round5.rule_array_element_type_as_declared])
+    # round 9: rules that are necessary conditions of a sibling property as well
+    _extend('C03', [purity.rule_c01_r2])
+    _extend('C04', [round5.rule_no_instance_dict_writes])
+    for pid_ in ('C05',):
+        _extend(pid_, [extra.rule_keycache_keepalive])
+    _extend('C06', [escape.rule_c04_r1, classes_rules.rule_c17_r7])
+    _extend('C07', [round5.rule_converter_cache_keyed_by_identity])
+    _extend('C09', [unions.rule_c12_r1, conditions.rule_c13_r3])
+    _extend('C10', [conditions.rule_c13_r2])
+    _extend('C11', [round5.rule_eq_after_kind, agreement.rule_c05_r7])
+    _extend('C13', [construction.rule_c14_r2])
+    _extend('C17', [unions.rule_c11_r1])
+    _extend('C18', [classes_rules.rule_c15_r4])
+    _extend('C19', [agreement.rule_c05_r7])
+    _extend('C20', [classes_rules.rule_c17_r1])
+    _extend('C10', [unions.rule_c12_r5])
+    _extend('C15', [classes_rules.rule_c17_r6])
     _extend('C20', [rename.rule_c20_r6, rename.rule_c20_r7, round5.rule_style_guard_agrees])
